@@ -525,6 +525,8 @@ def run(prop, tier, seed, replay=None, embed=False):
         log("[%s] %s: %d executions, %d records, %d violations, %d known, %d other-property failures, %.0fs" % (
             prop, tier, result["traces"], result["records"], len(violations), len(known), len(others),
             time.time() - t0))
+        for o in others[:4]:
+            log("[other-property failure] t=%s seq=%s %s -> %s" % (o["t"], o["seq"], json.dumps(o["sig"]), o["properties"]))
         if unexplained and not violations:
             raise HarnessError("specification has no step for %d record(s), first: %s"
                                % (len(unexplained), json.dumps(unexplained[0])[:3000]))
